@@ -108,8 +108,15 @@ fn variants(s: &mut Src, file: &str, idx: usize) -> (String, String) {
     let name = format!("T{}", idx);
     let other = if idx == 1 { "./m2" } else { "./m1" };
     let other_name = if idx == 1 { "T2" } else { "T1" };
-    let v = s.below(19);
+    let v = s.below(23);
+    let other_idx = if idx == 1 { 2 } else { 1 };
     let (label, text) = match v {
+        // constants whose initialisers mention constants of another module: what `typeof` says about them depends on the
+        // current text of both files
+        19 => ("value_and_type_other_shape", format!("export const k{} = {{ tag: 1, extra: true }} as const;\nexport type {} = typeof k{};\n", idx, name, idx)),
+        20 => ("const_spreads_other_const", format!("import {{ k{} }} from \"{}\";\nexport const k{} = {{ ...k{}, own: \"{}\" }} as const;\nexport type {} = typeof k{};\n", other_idx, other, idx, other_idx, file, name, idx)),
+        21 => ("const_member_of_other_const", format!("import {{ k{} }} from \"{}\";\nexport const k{} = {{ t: k{}.tag, wrapped: k{} }} as const;\nexport type {} = typeof k{};\n", other_idx, other, idx, other_idx, other_idx, name, idx)),
+        22 => ("value_only", format!("export const k{} = {{ tag: \"{}-only\", n: 2 }} as const;\nexport type {} = {{ v: typeof k{}.n }};\n", idx, file, name, idx)),
         17 => ("uses_string_format", format!("export type {} = {{ p: StringFormat<\"lower\">; n: number }};\n", name)),
         18 => ("uses_number_format", format!("export type {} = {{ q: NumberFormat<\"int\"> }};\n", name)),
         15 => ("jsdoc1_reworded", format!("/** The same payload, described differently ({}). */\nexport type {} = {{\n  /** still the a field */\n  a: string;\n}};\n", file, name)),
@@ -135,8 +142,11 @@ fn variants(s: &mut Src, file: &str, idx: usize) -> (String, String) {
 
 fn entry_variants(s: &mut Src, nmods: usize) -> (String, String) {
     let imports: String = (1..=nmods).map(|i| format!("import {{ T{} }} from \"./m{}\";\n", i, i)).collect();
-    let v = s.below(13);
+    let v = s.below(16);
     match v {
+        13 => ("spreads_imported_const".into(), "import { k1 } from \"./m1\";\nconst C = { ...k1, x: 1 } as const;\nparse.buildParsers<{ A: typeof C }>();\n".to_string()),
+        14 => ("member_of_imported_const".into(), "import { k1 } from \"./m1\";\nconst C = { t: k1.tag, k1 } as const;\nparse.buildParsers<{ A: typeof C; B: typeof k1.tag }>();\n".to_string()),
+        15 => ("typeof_imported_const".into(), format!("{}import {{ k1 }} from \"./m1\";\nparse.buildParsers<{{ A: typeof k1; B: T1 }}>();\n", imports)),
         9 => ("valid1_reordered".into(), format!("{}parse.buildParsers<{{ B: {}; A: T1 }}>();\n", imports, if nmods >= 2 { "T2" } else { "string" })),
         10 => ("namespace_typeof_member".into(), "import * as Ns from \"./m1\";\nparse.buildParsers<{ A: typeof Ns.k1 }>();\n".to_string()),
         11 => ("namespace_typeof_whole".into(), "import * as Ns from \"./m1\";\nparse.buildParsers<{ A: typeof Ns }>();\n".to_string()),
